@@ -36,8 +36,10 @@ def ptid_for(r):
 
 
 def strip_msg(m):
-    m = re.sub(r"^\S+?:\d+:\d+: ", "", m)
+    # (an error found in another package is reported where it is referenced: the message then starts with two positions)
+    m = re.sub(r"^(\S+?:\d+:\d+: )+", "", m)
     m = re.sub(r"^inject \w+: ", "", m)
+    m = re.sub(r"^(\S+?:\d+:\d+: )+", "", m)
     return m
 
 
